@@ -1,0 +1,24 @@
+//go:build verif
+
+package parsepasses
+
+// Contracts for the verification machinery in /verif (comment-only file).
+
+// C01 (compile-time globals): the pass gives a global node its value from the
+// map, fails when the map lacks it, and - for every node that has children -
+// descends into every child, so that no global in any expression position is
+// left unresolved when the pass reports success.
+//@ func SetNodeGlobals
+//@   props C01
+//@   nosafety
+//@   noterm
+//@   modifies *
+//@   ghost visited int = 0
+//@   ghost nchildren int = -1
+//@   at call ast.ParentNode.Children#0 after set nchildren = len(res)
+//@   at call parsepasses.SetNodeGlobals#0 after set visited = visited + 1
+//@   ensures[global-gets-its-value;C01] result == nil && typeis(node, *ast.GlobalNode) ==> haskey(globals, unbox(node, *ast.GlobalNode).Name) && unbox(node, *ast.GlobalNode).Value == globals[unbox(node, *ast.GlobalNode).Name]
+//@   ensures[undefined-global-is-an-error;C01] typeis(node, *ast.GlobalNode) && !haskey(old(globals), unbox(node, *ast.GlobalNode).Name) ==> result != nil
+//@   ensures[every-child-visited;C01] result == nil && implements(node, ast.ParentNode) && !typeis(node, *ast.GlobalNode) ==> visited == nchildren
+//@   loop 0
+//@     invariant[children-visited-so-far;C01] visited == rangeindex + 1 && visited <= nchildren
